@@ -27,7 +27,7 @@ Degenerate(dat) ==
     \/ VarOf(X) = "0" \/ VarOf(Y) = "0"
 
 \* r is an acceptable float32 image of Cov / sqrt(VarX VarY)
-ResultOK(dat, r, bound) ==    \* bound: 1 for the float32 results; 1 + 1e-12 for the float64 helper
+ResultOK(dat, r, bound) ==    \* bound: 1 for the float32 results; 1 + 1e-9 for the unrounded float64 helper
     IF Len(dat) < 2 THEN TRUE
     ELSE IF Degenerate(dat) THEN r = "0"
     ELSE LET cc == Cov(dat)  vv == RMul(VarOf(XOf(dat)), VarOf(YOf(dat))) IN
